@@ -323,6 +323,33 @@ func Run(root string, env []string) (*Result, error) {
 	}
 	for k, olds := range missingBy {
 		news := newBy[k]
+		if len(olds) == 1 && len(news) > 1 {
+			// one function disappeared and several new ones have its signature (a rename plus freshly
+			// extracted helpers): take the new function declared closest to where the old one was, in the same file
+			fo := knownOrder[olds[0]]
+			best, bestD := "", 1<<30
+			for _, n := range news {
+				fn := declOrder[n]
+				i, j := strings.Index(fo, "#"), strings.Index(fn, "#")
+				if i < 0 || j < 0 || fo[:i] != fn[:j] {
+					continue
+				}
+				var a, b int
+				fmt.Sscanf(fo[i+1:], "%d", &a)
+				fmt.Sscanf(fn[j+1:], "%d", &b)
+				d := a - b
+				if d < 0 {
+					d = -d
+				}
+				if d < bestD {
+					best, bestD = n, d
+				}
+			}
+			if best == "" || bestD > 6 {
+				continue
+			}
+			news = []string{best}
+		}
 		if len(olds) != len(news) || len(olds) == 0 {
 			continue
 		}
